@@ -30,7 +30,7 @@ LEVEL_NOTE = "Trusts lib/e5ref.py; sampled payloads; inputs outside the generato
 TECHNIQUE = "runtime differential oracle (reference decoder) over foreign valid encodings and accepted mutants"
 SHARDS = {"quick": 8, "thorough": 16}
 TIMEOUT = {"quick": 240, "thorough": 3000}
-FLOORS = {"oracle.anyvalue": 2000, "oracle.typed": 1000, "oracle.dataitem": 300, "nonminimal.inputs": 1000,
+FLOORS = {"oracle.decode_into_used_object": 1000, "oracle.anyvalue": 2000, "oracle.typed": 1000, "oracle.dataitem": 300, "nonminimal.inputs": 1000,
           "enumerated.code_x_lenbytes": 14 * 3, "mutants.accepted_by_reference": 50}
 
 ANY_FMTS = [f for f in gen.LEAF_FMTS if f != "J"]
@@ -104,6 +104,45 @@ def _judge(ctx, target_name, make_target, data, tree, mech, nontrivial=True, exp
             ctx.violation(f"reencode-not-canonical:{mech}", {**wit, "encoded": enc[:120], "canonical": ref[:120]})
     except Exception as exc:
         ctx.violation(f"get-or-encode-raises:{mech}:{type(exc).__name__}", {**wit, "error": repr(exc)[:200]})
+        return
+    _judge_reused(ctx, make_target, data, canon, ref, mech, wit)
+
+
+_PREFILL_RNG = __import__("random").Random(20260923)
+
+
+def _prefill_for(canon):
+    """A different valid item the same target should accept: same format, other length (a receive buffer / a message
+    object that is decoded into more than once holds the previous value)."""
+    fmt, val = canon
+    if fmt == "L":
+        return ("L", list(val) + [("U1", [7])]) if len(val) < 4 else ("L", list(val)[:1])
+    n = len(val)
+    other = gen.leaf(_PREFILL_RNG, fmt, n=(n + 2 if n < 3 else 1))
+    return _canon(other)
+
+
+def _judge_reused(ctx, make_target, data, canon, ref, mech, wit):
+    """The same bytes decoded into an object that already holds another value must give the same result."""
+    try:
+        pre = e5ref.encode(_prefill_for(canon))
+        obj = make_target()
+        obj.decode(pre)
+    except Exception:
+        ctx.count("reused_target.prefill_not_accepted")     # fixed-length data item, restricted formats, ...: no reuse target
+        return
+    ctx.count("oracle.decode_into_used_object")
+    try:
+        pos = obj.decode(data)
+        if pos != len(data):
+            ctx.violation(f"decode-position:used-object:{mech}", {**wit, "pos": pos, "want": len(data), "held_before": pre[:60]})
+            return
+        enc = obj.encode()
+    except Exception as exc:
+        ctx.violation(f"decode-raises:used-object:{mech}:{type(exc).__name__}", {**wit, "error": repr(exc)[:200], "held_before": pre[:60]})
+        return
+    if enc != ref:
+        ctx.violation(f"decode-into-used-object-keeps-or-mixes-old-value:{mech}", {**wit, "encoded": enc[:120], "canonical": ref[:120], "held_before": pre[:60]})
 
 
 def _enumerate_code_lenbytes(ctx):
